@@ -358,6 +358,9 @@ def load_settings(args: list[str]) -> Settings:
     except IsADirectoryError as ex:
         raise ValueError(f'refurb: "{file}" is a directory') from ex
 
+    except (tomllib.TOMLDecodeError, UnicodeDecodeError) as ex:
+        raise ValueError(f'refurb: "{file}" is not a valid TOML file: {ex}') from ex
+
     except FileNotFoundError as ex:
         if cli_args.config_file:
             raise ValueError(f'refurb: "{file}" was not found') from ex
